@@ -313,31 +313,59 @@ impl<Aux> Vm<'_, Aux> {
         let src = func.pos;
         let end = program.bytecode.len() - 1;
         let len = self.runtime_data.value_stack.len() as u32;
+        let stack_offset = len
+            .checked_sub(arity)
+            .ok_or(ExecutionErrorPayload::MissingArgument)?;
+        let call_depth = self.runtime_data.call_stack.len();
 
-        // a function call needs 2 stack frames, 1 for the current scope, another for the return
-        // address
-        //
-        // the first one will be used as a trap, to exit the program,
-        // the second one is the actual callframe of the function
-        for _ in 0..2 {
-            self.runtime_data
-                .call_stack
-                .push(CallFrame {
-                    src_instr_ptr: src,
-                    dst_instr_ptr: end as u32,
-                    stack_offset: len
-                        .checked_sub(arity)
-                        .ok_or(ExecutionErrorPayload::MissingArgument)?,
-                    closure,
-                })
-                .map_err(|_| ExecutionErrorPayload::CallStackOverflow)?;
+        let result = (|| {
+            // a function call needs 2 stack frames, 1 for the current scope, another for the
+            // return address
+            //
+            // the first one will be used as a trap, to exit the program,
+            // the second one is the actual callframe of the function
+            for _ in 0..2 {
+                self.runtime_data
+                    .call_stack
+                    .push(CallFrame {
+                        src_instr_ptr: src,
+                        dst_instr_ptr: end as u32,
+                        stack_offset,
+                        closure,
+                    })
+                    .map_err(|_| ExecutionErrorPayload::CallStackOverflow)?;
+            }
+
+            let mut instr_ptr = src as usize;
+            self._run(&mut instr_ptr).map_err(|err| err.payload)
+        })();
+        if let Err(err) = result {
+            // the caller may carry on after a failed call: drop the frames, the arguments and
+            // the locals the callee left behind, as a return would have
+            self.unwind_failed_call(call_depth, stack_offset as usize);
+            return Err(err);
         }
-
-        let mut instr_ptr = src as usize;
-        self._run(&mut instr_ptr).map_err(|err| err.payload)?;
         // pop the trap callframe
         self.runtime_data.call_stack.pop();
         Ok(self.stack_pop())
+    }
+
+    fn unwind_failed_call(&mut self, call_depth: usize, stack_offset: usize) {
+        while self.runtime_data.call_stack.len() > call_depth {
+            self.runtime_data.call_stack.pop();
+        }
+        if self.runtime_data.value_stack.len() > stack_offset {
+            let start = unsafe {
+                self.runtime_data
+                    .value_stack
+                    .as_slice()
+                    .as_ptr()
+                    .add(stack_offset)
+            };
+            // variables captured by closures that outlive the call keep their last value
+            let _ = instr_execution::close_upvalues_from(self, start);
+            self.runtime_data.value_stack.clear_until(stack_offset);
+        }
     }
 
     fn _run(&mut self, instr_ptr: &mut usize) -> ExecutionResult<()> {
